@@ -123,11 +123,17 @@ POW2 = z3.Function("pow2", z3.IntSort(), z3.IntSort())
 
 
 def pow2_axioms():
+    return []
+
+
+def install_pow2(p):
+    """pow2(k) = 1 if k <= 0 else 2*pow2(k-1), instantiated on demand like any spec function; plus pow2 >= 1."""
     k = z3.Int("k!p2")
-    return [
-        POW2(0) == 1,
-        z3.ForAll([k], z3.Implies(k >= 0, z3.And(POW2(k + 1) == 2 * POW2(k), POW2(k) >= 1)), patterns=[POW2(k)]),
-    ]
+    p.register_spec(POW2, [k], z3.If(k <= 0, z3.IntVal(1), 2 * POW2(k - 1)))
+    p.register_spec(POW2POS, [k], POW2(k) >= 1)
+
+
+POW2POS = z3.Function("pow2pos", z3.IntSort(), z3.BoolSort())
 
 
 def py_floordiv(ta, tb):
@@ -247,7 +253,8 @@ class _Num(Sym):
     def __rpow__(self, o):
         if o == 2 and isinstance(self, SInt):
             paths.current().require(self.e >= 0, "safe.pow2-nonneg")
-            paths.current().use_axioms("pow2", pow2_axioms())
+            p = paths.current()
+            p.assume(POW2POS(self.e))
             return wrap(POW2(self.e))
         raise OutOfReach("symbolic exponent")
 
@@ -322,7 +329,7 @@ def _pow2(k):
         return 2**k
     if isinstance(k, SInt):
         paths.current().require(k.e >= 0, "safe.shift-nonneg", exc="ValueError")
-        paths.current().use_axioms("pow2", pow2_axioms())
+        paths.current().assume(POW2POS(k.e))
         return SInt(POW2(k.e))
     raise OutOfReach("shift by non-int")
 
@@ -489,6 +496,13 @@ def kind_of_value(v):
 # sequences with symbolic length
 
 
+def select(a, i):
+    """Select with beta-reduction when the array is a lambda term."""
+    if z3.is_quantifier(a) and a.is_lambda() and a.num_vars() == 1:
+        return z3.substitute_vars(a.body(), i)
+    return z3.Select(a, i)
+
+
 class SSeq(Sym):
     """Immutable sequence value: length term + z3 array Int -> elem.  `is_list` only affects
     Python-level type tests (tuple vs list)."""
@@ -530,7 +544,7 @@ class SSeq(Sym):
 
     def at(self, i):
         """Element at a *normalised* (non-negative, in range) index term, no bounds obligation."""
-        return self.kind.wrapf(z3.Select(self.a, as_int_term(i)))
+        return self.kind.wrapf(select(self.a, as_int_term(i)))
 
     def __getitem__(self, i):
         if isinstance(i, slice):
